@@ -355,6 +355,11 @@ def expectedLog (c : Cfg) : List Bytes → List (Bytes × Bytes)
   | [a] => [(a, [])]
   | a :: b :: t => (a, []) :: (stepEntries c a b ++ expectedLog c (b :: t))
 
+/-- the hop lines of a path, without the prompt probes -/
+def hopLines (c : Cfg) : List Bytes → List (Bytes × Bytes)
+  | a :: b :: t => stepEntries c a b ++ hopLines c (b :: t)
+  | _ => []
+
 /-- `a, parent a, …, root` -/
 def chainUp (L : Levels) : Nat → Bytes → List Bytes
   | 0, a => [a]
